@@ -543,3 +543,48 @@ def check_k7(ctx, rep, f):
         rep.undecided(RULE + '.K7', f, tst, 'test outside the integer fragment: {}'.format(e))
         return
     rep.holds(RULE + '.K7', f, tst, 'error iff 0 < limit < number of states (24 integer cases evaluated on the extracted comparison)')
+
+
+def check_k8(ctx, rep, f, roles: Roles):
+    """a checker that walks the ROWS OF THE ANSWER and compares each with a cell of a reference-derived table judges only
+    the rows that are there: the number of answer rows must be compared with a reference-derived size, otherwise a
+    truncated answer is accepted."""
+    vr = roles.var_roles(f)
+
+    def only(e, role):
+        rs = Roles.expr_roles(e, vr)
+        return rs == {role}
+
+    n = 0
+    for loop in walk_no_nested(f.node):
+        if not isinstance(loop, ast.For) or not only(loop.iter, 'answer'):
+            continue
+        # positional comparison against a reference table inside the loop
+        tables = []
+        for s in ast.walk(loop):
+            if isinstance(s, ast.Subscript) and isinstance(s.ctx, ast.Load) and isinstance(s.value, ast.Name) and vr.get(s.value.id) == {'reference'} \
+                    and Roles.expr_roles(s.slice, vr) == {'answer'}:
+                tables.append(s)
+        if not tables:
+            continue
+        # outermost loops only (the row loop)
+        if any(isinstance(o, ast.For) and o is not loop and any(x is loop for x in ast.walk(o)) and only(o.iter, 'answer') for o in walk_no_nested(f.node)):
+            continue
+        n += 1
+        found = None
+        for t in walk_no_nested(f.node):
+            if not isinstance(t, ast.If):
+                continue
+            for c in ast.walk(t.test):
+                if not (isinstance(c, ast.Compare) and len(c.ops) == 1):
+                    continue
+                sides = [c.left, c.comparators[0]]
+                for a, b in (sides, sides[::-1]):
+                    has_len = any(isinstance(x, ast.Call) and isinstance(x.func, ast.Name) and x.func.id == 'len' and x.args and only(x.args[0], 'answer') for x in ast.walk(a))
+                    if has_len and only(a, 'answer') and only(b, 'reference'):
+                        found = c
+        if found is not None:
+            rep.holds(RULE + '.K8', f, loop, 'the number of answer rows is compared with a reference-derived size ({}): a truncated answer is rejected'.format(u(found)))
+        else:
+            rep.violates(RULE + '.K8', f, loop, 'the rows of the answer are compared position by position with the reference table {} but the NUMBER of answer rows is never compared with a size derived from the reference: an answer with rows missing is judged only on the rows that are there and gets OK'.format(u(tables[0].value)))
+    return n
